@@ -77,6 +77,13 @@ class Overlay:
         self.appended.setdefault(relpath, 0)
         self.appended[relpath] += text.count("\n") + 2
 
+    def prepend(self, relpath, text):
+        """insert crate-level inner attributes (e.g. recursion_limit for many #[kani::stub] attributes) at the top of the copy"""
+        p = os.path.join(self.dir, relpath)
+        body = open(p).read()
+        with open(p, "w") as f:
+            f.write(text + "\n" + body)
+
     def write(self, relpath, text):
         p = os.path.join(self.dir, relpath)
         os.makedirs(os.path.dirname(p), exist_ok=True)
